@@ -10,10 +10,28 @@ import (
 
 func NewEncoder(wr io.Writer, cfg EncodeOptions) *Encoder {
 	return &Encoder{
-		wr:    wr,
+		wr:    &errTrackingWriter{w: wr},
 		cfg:   cfg,
 		stack: make([]phase, 0, 10),
 	}
+}
+
+// errTrackingWriter remembers the first failure (an error or a short write)
+// of the underlying writer, so that Step can report it.
+type errTrackingWriter struct {
+	w   io.Writer
+	err error
+}
+
+func (z *errTrackingWriter) Write(p []byte) (n int, err error) {
+	n, err = z.w.Write(p)
+	if err == nil && n < len(p) {
+		err = io.ErrShortWrite
+	}
+	if err != nil && z.err == nil {
+		z.err = err
+	}
+	return n, err
 }
 
 func (d *Encoder) Reset() {
@@ -26,7 +44,7 @@ func (d *Encoder) Reset() {
 	A json.Encoder is a TokenSink implementation that emits json bytes.
 */
 type Encoder struct {
-	wr  io.Writer
+	wr  *errTrackingWriter
 	cfg EncodeOptions
 
 	// Stack, tracking how many array and map opens are outstanding.
@@ -49,6 +67,15 @@ const (
 )
 
 func (d *Encoder) Step(tok *Token) (done bool, err error) {
+	done, err = d.step(tok)
+	if err == nil && d.wr.err != nil {
+		// Something could not be written: the output is incomplete.
+		return true, d.wr.err
+	}
+	return done, err
+}
+
+func (d *Encoder) step(tok *Token) (done bool, err error) {
 	switch d.current {
 	case phase_anyExpectValue:
 		switch tok.Type {
